@@ -783,6 +783,9 @@ pub fn check(problem: &PProblem, solution: &Value, opts: &OracleOptions) -> Vec<
             }
         }
     }
+    if problem.clustering.is_some() {
+        f.extend(check_commutes(problem, tours, tol));
+    }
     // overall statistic = sum of tours
     let stat = solution.get("statistic");
     let keys: [&[&str]; 9] = [&["cost"], &["distance"], &["duration"], &["times", "driving"], &["times", "serving"], &["times", "waiting"], &["times", "break"], &["times", "commuting"], &["times", "parking"]];
@@ -795,6 +798,116 @@ pub fn check(problem: &PProblem, solution: &Value, opts: &OracleOptions) -> Vec<
         match got {
             Some(g) if (g - sum[i]).abs() <= 1e-6 * sum[i].abs().max(1.) => {}
             _ => f.push(Finding::new("C03:statistic-total", format!("overall {:?} = {got:?}, sum of tours = {}", key, sum[i]))),
+        }
+    }
+    f
+}
+
+/// Vicinity clustering: the walk inside a clustered stop is replayed from the commute records and the routing data of the
+/// clustering profile. Forward leg: from `forward.location` to the activity, backward leg: from the activity to
+/// `backward.location`; the legs and the services follow each other without a gap, the walker starts and ends at the stop
+/// location, the tour's commuting / parking times are the sums of these records.
+fn check_commutes(problem: &PProblem, tours: &[Value], tol: f64) -> Vec<Finding> {
+    let mut f = vec![];
+    let Some(clustering) = problem.clustering.as_ref() else { return f };
+    let profile = clustering["profile"]["matrix"].as_str().unwrap_or("");
+    let scale = clustering["profile"]["scale"].as_f64().unwrap_or(1.);
+    let Some(matrix) = problem.matrix_of(profile) else { return f };
+    let eps = tol + 1e-6;
+    let span = |v: &Value| -> Option<(f64, f64)> { Some((v.get("start").and_then(time_of)?, v.get("end").and_then(time_of)?)) };
+    for (ti, tour) in tours.iter().enumerate() {
+        let vehicle_id = tour.get("vehicleId").and_then(|x| x.as_str()).unwrap_or("");
+        let here = |s: String| format!("tour {ti} ('{vehicle_id}'): {s}");
+        let (mut commuting, mut parking_total) = (0., 0.);
+        for (si, stop) in tour.get("stops").and_then(|s| s.as_array()).into_iter().flatten().enumerate() {
+            let Some(stop_loc) = stop.get("location").and_then(loc_index) else { continue };
+            let acts = stop.get("activities").and_then(|a| a.as_array()).cloned().unwrap_or_default();
+            let parking = stop.get("parking").filter(|p| !p.is_null()).and_then(span);
+            let has_commute = acts.iter().any(|a| a["commute"].get("forward").is_some() || a["commute"].get("backward").is_some());
+            if let Some((s, e)) = parking {
+                parking_total += e - s;
+            }
+            if !has_commute {
+                continue;
+            }
+            let (Some(arrival), Some(departure)) = (stop["time"].get("arrival").and_then(time_of), stop["time"].get("departure").and_then(time_of)) else { continue };
+            let mut cursor = parking.map_or(arrival, |p| p.1);
+            let mut position = stop_loc;
+            let plain = acts.iter().all(|a| !["break", "reload", "recharge", "departure", "arrival"].contains(&a["type"].as_str().unwrap_or("")));
+            for a in &acts {
+                let id = a["jobId"].as_str().unwrap_or("?");
+                let a_loc = a.get("location").and_then(loc_index).unwrap_or(stop_loc);
+                let (a_start, a_end) = a.get("time").filter(|t| !t.is_null()).and_then(span).unwrap_or((arrival, departure));
+                match a["commute"].get("forward") {
+                    Some(fw) => {
+                        let from = fw.get("location").and_then(loc_index).unwrap_or(usize::MAX);
+                        let (fs, fe) = span(&fw["time"]).unwrap_or((f64::NAN, f64::NAN));
+                        commuting += fe - fs;
+                        if from >= matrix.n || a_loc >= matrix.n {
+                            f.push(Finding::new("C03:commute-forward", here(format!("stop {si} job '{id}': unknown location in the forward commute"))));
+                            continue;
+                        }
+                        let (dist, dur) = (matrix.dist(from, a_loc), matrix.dur(from, a_loc) * scale);
+                        if (fw["distance"].as_f64().unwrap_or(f64::NAN) - dist).abs() > eps || ((fe - fs) - dur).abs() > eps {
+                            f.push(Finding::new(
+                                "C03:commute-forward",
+                                here(format!("stop {si} job '{id}': forward commute {from}->{a_loc} reported as distance {} / {} s, the routing data gives {dist} / {dur} s", fw["distance"], fe - fs)),
+                            ));
+                        }
+                        if plain && (from != position || (fs - cursor).abs() > eps || fe > a_start + eps) {
+                            f.push(Finding::new(
+                                "C03:commute-chain",
+                                here(format!("stop {si} job '{id}': forward commute starts at location {from} at {fs} and ends at {fe}; the walker is at {position} at {cursor}, the service starts at {a_start}")),
+                            ));
+                        }
+                    }
+                    None => {
+                        if plain && a_loc != position {
+                            f.push(Finding::new("C03:commute-chain", here(format!("stop {si} job '{id}': served at location {a_loc} while the walker is at {position}, no forward commute reported"))));
+                        }
+                    }
+                }
+                cursor = a_end;
+                position = a_loc;
+                if let Some(bw) = a["commute"].get("backward") {
+                    let to = bw.get("location").and_then(loc_index).unwrap_or(usize::MAX);
+                    let (bs, be) = span(&bw["time"]).unwrap_or((f64::NAN, f64::NAN));
+                    commuting += be - bs;
+                    if to >= matrix.n || a_loc >= matrix.n {
+                        f.push(Finding::new("C03:commute-backward", here(format!("stop {si} job '{id}': unknown location in the backward commute"))));
+                        continue;
+                    }
+                    let (dist, dur) = (matrix.dist(a_loc, to), matrix.dur(a_loc, to) * scale);
+                    if (bw["distance"].as_f64().unwrap_or(f64::NAN) - dist).abs() > eps || ((be - bs) - dur).abs() > eps {
+                        f.push(Finding::new(
+                            "C03:commute-backward",
+                            here(format!("stop {si} job '{id}': backward commute {a_loc}->{to} reported as distance {} / {} s, the routing data gives {dist} / {dur} s", bw["distance"], be - bs)),
+                        ));
+                    }
+                    if plain && (bs - a_end).abs() > eps {
+                        f.push(Finding::new("C03:commute-chain", here(format!("stop {si} job '{id}': backward commute starts at {bs}, the service ends at {a_end}"))));
+                    }
+                    cursor = be;
+                    position = to;
+                }
+            }
+            if plain && (position != stop_loc || (cursor - departure).abs() > eps) {
+                f.push(Finding::new(
+                    "C03:commute-chain",
+                    here(format!("stop {si}: the walk ends at location {position} at {cursor}, the vehicle leaves location {stop_loc} at {departure}")),
+                ));
+            }
+        }
+        let times = &tour["statistic"]["times"];
+        if let Some(reported) = times["commuting"].as_f64() {
+            if (reported - commuting).abs() > eps.max(1.) {
+                f.push(Finding::new("C03:statistic-commuting", here(format!("reported {reported}, the commute records sum up to {commuting}"))));
+            }
+        }
+        if let Some(reported) = times["parking"].as_f64() {
+            if (reported - parking_total).abs() > eps.max(1.) {
+                f.push(Finding::new("C03:statistic-parking", here(format!("reported {reported}, the parking records sum up to {parking_total}"))));
+            }
         }
     }
     f
